@@ -1167,3 +1167,37 @@ def rule_member_refs_reset_per_group(ctx):
                 ctx.violated("ITEMREF", key, f.where(node_line(lp)), "`%s` receives a member reference inside the walk over a group's members and is used afterwards, but the per-group loop does not give it a start value: a group without that member inherits the previous group's reference" % v)
     ctx.floor("ITEMREF", 4, n, "(locals that receive a member reference in the group walk)")
     return n
+
+
+# ---------------------------------------------------------------------------------------------------------------------
+def rule_read_list_required(ctx):
+    """READLIST (C07): VSread copies, for each field of the *read list* (`rlist`, filled by VSsetfields on a read attachment), the
+    values of that field into the caller's buffer; all its multi-field loops run `j < r->n`.  With an empty read list — VSsetfields
+    was only called while the vdata was attached for writing — the loops do nothing, and the routine would return the record
+    count with the caller's buffer untouched.  VSread therefore tests the read list's field count and fails before it reads."""
+    prog = ctx.prog
+    f = prog.func("VSread")
+    if f is None:
+        ctx.unrecognised("READLIST", "READLIST:VSread", "-", "VSread not found")
+        return 0
+    loops = 0
+    for b in f.blocks.values():
+        t = b.get("term")
+        if t and t.get("cond") is not None:
+            c = strip(t["cond"])
+            if kind(c) == "bin" and c[1] == "<" and (mem_field(c[3]) or (0, 0))[1] == "n" and base_var(c[3]) == "r":
+                loops += 1
+    tested = False
+    for b in f.blocks.values():
+        t = b.get("term")
+        if t and t.get("cond") is not None:
+            for c in walk(t["cond"], True):
+                if c[0] == "bin" and c[1] in ("<=", "==", "<") and (mem_field(c[2]) or (0, 0))[1] == "n" and "rlist" in render(c[2]) and is_int(c[3]):
+                    tested = True
+    key = "READLIST:VSread"
+    if tested:
+        ctx.holds("READLIST", key, f.where(), "the read list's field count is tested before the %d loops that run over it" % loops, nontrivial=True)
+    else:
+        ctx.violated("READLIST", key, f.where(), "VSread runs %d loops over the read list (`j < r->n`) and never tests that the list is non-empty: with no fields selected for reading it copies nothing and reports success" % loops)
+    ctx.floor("READLIST", 3, loops, "(loops of VSread over the read list)")
+    return 1
